@@ -52,6 +52,6 @@ def obligations(src):
         obs.append(Obligation('display-roundtrip', 'holds' if not bad else 'violated', '; '.join(bad[:3]) or f'{npaths} paths covering all 52x51 ordered constructions: text = the two card texts in canonical order, parses back to the same pair',
                               cex=dict(reproduced=True, detail=bad[:5]) if bad else None, key='display-text', queries=nq + M.nq, solver_s=M.qtime, wall_s=time.time() - t0,
                               extra=dict(engine='mirx', description='CardPair::new, <CardPair as Display>::fmt, <CardPair as FromStr>::from_str on symbolic cards')))
-    except mirx.Unsupported as e:
-        obs.append(Obligation('display-roundtrip', 'inconclusive', 'unsupported: ' + str(e)))
+    except Exception as e:
+        obs.append(Obligation('display-roundtrip', 'inconclusive', ('unsupported: ' if isinstance(e, mirx.Unsupported) else 'internal: ' + type(e).__name__ + ' ') + str(e)))
     return obs
